@@ -32,6 +32,11 @@ CLAIMS = {
  "C20": ("emission-trace comparison (PRINT_EXPR gating)",
          "Decides: PRINT_EXPR only for interactive top-level expression statements. Does not decide: equivalence of line-at-a-time and whole-file execution; the incomplete-input decision (matches error text, a value).",
          "DESIGN.md §4 C20"),
+ "C11": ("recover-barrier recognition, panic-argument classification with exhaustiveness discharge, comma-ok/nil-dereference lint, lost-update lint, compiler-proved bounds checks (go build -d=ssa/check_bce) and unchecked-assertion census against confirmed tables",
+         "Decides: each pipeline stage is a recover barrier and nothing that can panic runs outside one; every explicit panic is SyntaxError-family, a re-panic from a barrier, provably unreachable (exhaustive switch) or a confirmed row; "
+         "comma-ok results are never dereferenced on the failing branch; struct-copy updates are not lost; every index/slice the Go compiler cannot prove and every unchecked type assertion is a confirmed row. "
+         "Does not decide: termination of the lexer/parser, pathological slowness; the confirmed rows are beliefs checked by reading, not proofs.",
+         "DESIGN.md §4 C11"),
 }
 _todo = "rules for this property are designed (DESIGN.md §4) but not yet implemented in this revision of the checker"
-NA = {p: _todo for p in ["C03","C06","C07","C08","C10","C11","C13","C14","C15","C16","C17","C18"]}
+NA = {p: _todo for p in ["C03","C06","C07","C08","C10","C13","C14","C15","C16","C17","C18"]}
